@@ -4,7 +4,12 @@ import (
 	"context"
 	"errors"
 	"fmt"
+	"os"
+	"os/exec"
+	"path/filepath"
+	"regexp"
 	"sync"
+	"time"
 
 	"github.com/yaricom/goNEAT/v4/experiment"
 	"github.com/yaricom/goNEAT/v4/neat"
@@ -97,8 +102,112 @@ func c20Enumerate(tier string) []c20Case {
 			}
 		}
 	}
+	// the shipped experiment runner (the executable of the repository root) with and without the -trials override
+	nRunner := 6
+	if tier == "thorough" {
+		nRunner = 24
+	}
+	for i := 0; i < nRunner; i++ {
+		cases = append(cases, c20Case{Runs: 2 + i%3, Gens: 2 + i%2, Fault: c20Fault{Kind: "runner", R: []int{0, 1, 2, 4}[i%4], G: i}})
+	}
 	c20CaseCache[tier] = cases
 	return cases
+}
+
+// c20Runner runs the experiment runner program of the repository (built by run.sh from the tree under check): options
+// file with num_runs = cs.Runs, -trials = cs.Fault.R (0: no override); the experiment it saves must hold exactly the
+// configured number of trials, each with 1..num_generations generations in order
+func c20Runner(c *Ctx, cs c20Case) {
+	bin := os.Getenv("VERIFMON_RUNNER")
+	if bin == "" {
+		c.Inconclusive("the experiment runner binary was not built (VERIFMON_RUNNER is not set)")
+		return
+	}
+	dir, err := os.MkdirTemp(workDir("C20"), "runner")
+	if err != nil {
+		panic("harness: " + err.Error())
+	}
+	defer os.RemoveAll(dir)
+	optsText, err := os.ReadFile(filepath.Join(repoRoot(), "data", "xor_test.neat.yml"))
+	if err != nil {
+		panic("harness: " + err.Error())
+	}
+	set := func(text, key, val string) string {
+		re := regexp.MustCompile(`(?m)^` + key + `:.*$`)
+		if !re.MatchString(text) {
+			panic("harness: option " + key + " not found in the shipped options file")
+		}
+		return re.ReplaceAllString(text, key+": "+val)
+	}
+	text := string(optsText)
+	text = set(text, "num_runs", fmt.Sprint(cs.Runs))
+	text = set(text, "num_generations", fmt.Sprint(cs.Gens))
+	text = set(text, "pop_size", "30")
+	optsPath := filepath.Join(dir, "options.neat.yml")
+	if err = os.WriteFile(optsPath, []byte(text), 0o644); err != nil {
+		panic("harness: " + err.Error())
+	}
+	out := filepath.Join(dir, "out")
+	args := []string{"-out", out, "-context", optsPath, "-genome", filepath.Join(repoRoot(), "data", "xorstartgenes"), "-experiment", "XOR",
+		"-seed", fmt.Sprint(1000 + cs.Fault.G), "-log_level", "error"}
+	want := cs.Runs
+	if cs.Fault.R > 0 {
+		args = append(args, "-trials", fmt.Sprint(cs.Fault.R))
+		want = cs.Fault.R
+	}
+	ctx, cancel := context.WithTimeout(context.Background(), 5*time.Minute)
+	defer cancel()
+	cmd := exec.CommandContext(ctx, bin, args...)
+	cmd.Dir = dir
+	output, runErr := cmd.CombinedOutput()
+	c.Count("runner.executions", 1)
+	detail := map[string]interface{}{"case": cs, "args": args, "key": "runner", "output_tail": tailString(string(output), 1500)}
+	if ctx.Err() != nil {
+		c.Inconclusive("the experiment runner did not finish within 5 minutes")
+		return
+	}
+	if runErr != nil {
+		c.Violate("runner-failed", detail, "the experiment runner failed with num_runs %d, -trials %d: %v", cs.Runs, cs.Fault.R, runErr)
+		return
+	}
+	f, err := os.Open(filepath.Join(out, "XOR.dat"))
+	if err != nil {
+		c.Violate("runner-failed", detail, "the experiment runner saved no experiment: %v", err)
+		return
+	}
+	defer f.Close()
+	var exp experiment.Experiment
+	if err = exp.Read(f); err != nil {
+		c.Violate("runner-failed", detail, "the experiment saved by the runner can not be read: %v", err)
+		return
+	}
+	if len(exp.Trials) != want {
+		c.Violate("trials-recorded", detail, "the runner was configured for %d trials (num_runs %d, -trials %d) and recorded %d", want, cs.Runs, cs.Fault.R, len(exp.Trials))
+		return
+	}
+	for r, tr := range exp.Trials {
+		if tr.Id != r || len(tr.Generations) < 1 || len(tr.Generations) > cs.Gens {
+			c.Violate("trials-recorded", detail, "trial #%d recorded by the runner has id %d and %d generations (num_generations %d)", r, tr.Id, len(tr.Generations), cs.Gens)
+			return
+		}
+		for g, gen := range tr.Generations {
+			if gen.Id != g || gen.TrialId != r || (gen.Solved && g != len(tr.Generations)-1) {
+				c.Violate("trials-recorded", detail, "trial %d generation #%d recorded by the runner as (id %d, trial %d, solved %v)", r, g, gen.Id, gen.TrialId, gen.Solved)
+				return
+			}
+		}
+	}
+	h := newHasher()
+	h.i(-7)
+	h.i(cs.Fault.G)
+	c.Distinct(h.sum())
+}
+
+func tailString(s string, n int) string {
+	if len(s) <= n {
+		return s
+	}
+	return s[len(s)-n:]
 }
 
 func init() {
@@ -109,13 +218,13 @@ func init() {
 			"error at every evaluated (trial, generation) - also together with the solved flag in the generation that is reported solved -, cancellation from inside the evaluator at every (trial, generation), from each " +
 			"observer callback (TrialRunStarted, EpochEvaluated, TrialRunFinished) and in the middle of the epoch that follows an " +
 			"evaluation (ReproduceStart hook). The recorded call log of the instrumented evaluator / observer is checked by a trace " +
-			"checker of the protocol. evaluations = Execute runs. Fault-free patterns are also run on an Experiment whose Trials are pre-allocated and on one reused after a longer run. A case is non-trivial if it has >= 2 trials or a fault; all cases are distinct.",
+			"checker of the protocol. evaluations = Execute runs. The experiment runner program of the repository is executed with and without its -trials override and the experiment it saves is read back. Fault-free patterns are also run on an Experiment whose Trials are pre-allocated and on one reused after a longer run. A case is non-trivial if it has >= 2 trials or a fault; all cases are distinct.",
 		Assumptions: []string{"population size 6..12, XOR start genome; the evaluator assigns fitness and fills the generation statistics as the shipped evaluators do"},
 		Cases:       func(tier string) int { return len(c20Enumerate(tier)) },
 		Run:         runC20,
 		Exhaustive:  true,
 		Required: []string{"cases.none", "cases.eval_error", "cases.cancel_in_eval", "cases.cancel_in_epoch_evaluated", "cases.cancel_in_trial_started",
-			"cases.cancel_in_trial_finished", "cases.cancel_mid_epoch", "cases.parallel", "cases.no_observer", "cases.eval_error_solved", "cases.eval_error_deadline", "cases.trials_preallocated", "cases.experiment_reused_after_longer_run", "trials.solved", "trials.unsolved", "canceled.returned"},
+			"cases.cancel_in_trial_finished", "cases.cancel_mid_epoch", "cases.parallel", "cases.no_observer", "cases.runner", "cases.eval_error_solved", "cases.eval_error_deadline", "cases.trials_preallocated", "cases.experiment_reused_after_longer_run", "trials.solved", "trials.unsolved", "canceled.returned"},
 	})
 }
 
@@ -292,6 +401,10 @@ func runC20(c *Ctx, idx int) {
 	cs := cases[idx]
 	c.Eval(1)
 	c.Count("cases."+cs.Fault.Kind, 1)
+	if cs.Fault.Kind == "runner" {
+		c20Runner(c, cs)
+		return
+	}
 	if cs.Parallel {
 		c.Count("cases.parallel", 1)
 	}
